@@ -315,7 +315,12 @@ func Canary[C any](t *testing.T, prop, finding string, c C, run func(C) Result) 
 	if res.Violation != "" {
 		logRecord(record{Kind: "canary", Test: t.Name(), Finding: finding, Message: res.Violation, Signature: res.Signature, N: 1})
 	} else {
-		logRecord(record{Kind: "canary", Test: t.Name(), Finding: finding, Message: "canary did not reproduce on this run", N: 0})
+		msg := "canary did not reproduce on this run"
+		if res.Inconclusive != "" {
+			msg += " (inconclusive: " + res.Inconclusive + ")"
+		}
+		logRecord(record{Kind: "canary", Test: t.Name(), Finding: finding, Message: msg, N: 0})
+		t.Logf("canary %s: %s; classes=%v history=%v", finding, msg, res.Classes, res.History)
 	}
 }
 
